@@ -102,6 +102,7 @@ def run_job(spec):
             prefix = work.pop()
             eng.reset(prefix)
             ctx = Ctx('sym', eng)
+            eng.hints_for_realize = ctx.hints       # same list object: hints declared so far
             try:
                 with shims():
                     h.fn(ctx, **spec['params'])
@@ -113,6 +114,7 @@ def run_job(spec):
             if not eng.shard_owns_path():
                 continue
             out['paths'] += 1
+            out['realized'] = eng.realized
             if out['paths'] > h.max_paths:
                 out['path_cap_hit'] = True
                 break
@@ -432,6 +434,8 @@ def main(argv=None):
             tot[k] += r[k]
         if r['path_cap_hit']:
             inconclusive.append('path cap hit in %s %s' % (r['spec']['harness'], r['spec']['params']))
+        if r.get('realized'):
+            inconclusive.append('%d symbolic values were realised to concrete floats by the code under test in %s %s: those paths cover one value only' % (r['realized'], r['spec']['harness'], r['spec']['params']))
         if r['unknown']:
             inconclusive.append('%d unknown queries in %s %s: %s' % (
                 r['unknown'], r['spec']['harness'], r['spec']['params'], r['unknown_goals'][:4]))
@@ -463,6 +467,7 @@ def main(argv=None):
         json.dump(c, open(path, 'w'), indent=1)
         files.append(path)
     violations, known_hits, nonrepro = [], {}, []
+    known_unreplayed = {}
     if files:
         br = _replay_batch(files)
         if '_error' in br:
@@ -478,8 +483,14 @@ def main(argv=None):
                     else:
                         violations.append((path, c, rr))
                 else:
-                    nonrepro.append((path, c, rr))
-                    os.remove(path) if False else None
+                    kf = match_known(known, c)
+                    if kf is not None and rr.get('pre_ok', True) and not rr.get('error'):
+                        # solver model inside the region of a recorded finding that float arithmetic does not hit
+                        # exactly (e.g. an exact-equality branch): an instance of that finding, not a new alarm
+                        known_hits.setdefault(kf['id'], [kf, 0, path])
+                        known_unreplayed[kf['id']] = known_unreplayed.get(kf['id'], 0) + 1
+                    else:
+                        nonrepro.append((path, c, rr))
     for path, c, rr in nonrepro:
         inconclusive.append('solver model did not reproduce on the real code: %s goal=%s (%s)' % (
             c['harness'], c['goal'], (rr.get('error') or 'goals held in float arithmetic')))
@@ -595,6 +606,7 @@ def main(argv=None):
                 queries=dict(total=tot['goals'], unsat=tot['unsat'], sat=tot['sat'],
                              sat_reproduced_violations=len(violations),
                              sat_known_findings=sum(v[1] for v in known_hits.values()),
+                             sat_in_known_region_not_hit_in_floats=sum(known_unreplayed.values()),
                              sat_not_reproduced=len(nonrepro), unknown=tot['unknown'],
                              by_strategy=by_strat),
                 solver_s=round(solver_s, 2),
